@@ -2,4 +2,5 @@
 # differential self-test of the executor and the library models against CPython + numpy (see selftest/selftest.py)
 HERE="$(cd "$(dirname "$0")/.." && pwd)"; cd "$HERE"
 bin/setup.sh >/dev/null 2>&1
+PYTHONPATH="$HERE" PYTHONDONTWRITEBYTECODE=1 .venv/bin/python -m selftest.symbolic 2>/dev/null || exit 1
 PYTHONPATH="$HERE" PYTHONDONTWRITEBYTECODE=1 exec .venv/bin/python -m selftest.selftest "$@" 2>/dev/null
